@@ -14,13 +14,28 @@ NA = {
 }
 LEVEL_TEXT = {
     "proof": "deductive proof of the named kernel obligations on the real code: Verus verifies every extracted function against its contract for all inputs and iterations; loop-free Kani harnesses over the full symbolic domain are complete proofs. The obligations are necessary conditions of the property (DESIGN.md section 4), not the whole property, except for C14 and C15 which are decided as stated.",
-    "other": "bounded model checking (Kani/CBMC, stated bounds) of real code stands in for part of the kernel and is labelled bounded, never counted as proved; the loop-free obligations listed as kind=complete are proofs.",
+    "other": "bounded model checking (Kani/CBMC, stated bounds) of real code stands in for most of the kernel and is labelled bounded, never counted as proved; the Verus obligations and the loop-free Kani obligations listed as kind=complete are proofs.",
 }
-TECH = {
-    "C14": "Verus contracts on the real allocator code (mechanical per-run extraction), invariants I1/I2/TRK established and preserved",
-    "C20": "Verus contracts on layout.rs + Kani loop-free induction step on the CheckedBackend latch",
-    "C15": "Kani loop-free full-domain harnesses per key type; bounded harnesses for variable-width types",
-}
+TECH = {}
+
+
+def technique(p):
+    parts = []
+    units = []
+    for v in p.get("verus", []):
+        if v["unit"] not in units:
+            units.append(v["unit"])
+    if units:
+        parts.append("Verus function contracts (requires/ensures, loop invariants, lemmas) on the real functions extracted from /repo on every run - units " + ", ".join(units))
+    kc = [k for k in p.get("kani", []) if k.get("kind", "complete") == "complete"]
+    kb = [k for k in p.get("kani", []) if k.get("kind") == "bounded"]
+    if kc:
+        parts.append("Kani/CBMC loop-free harnesses over the full symbolic domain on the real crate (complete): " + ", ".join(k["id"] for k in kc))
+    if kb:
+        parts.append("Kani/CBMC bounded harnesses (labelled bounded): " + ", ".join(k["id"] for k in kb))
+    if p.get("native"):
+        parts.append("native exhaustive enumeration of per-function contracts against a ghost model (cargo test, labelled bounded): " + ", ".join(k["id"] for k in p["native"]))
+    return "contract-based deductive verification of the real code: " + "; ".join(parts)
 checks = []
 for pid in sorted(reg["properties"]):
     p = reg["properties"][pid]
@@ -30,6 +45,8 @@ for pid in sorted(reg["properties"]):
         engines.append("Verus")
     if p.get("kani"):
         engines.append("Kani")
+    if p.get("native"):
+        engines.append("native-bounded")
     checks.append({
         "property_id": pid,
         "quick_cmd": "./check %s --tier quick" % pid,
@@ -39,7 +56,7 @@ for pid in sorted(reg["properties"]):
         "engine": "+".join(engines),
         "level_claimed": {"category": lvl, "text": LEVEL_TEXT[lvl] + " " + p.get("explanation", ""), "design_ref": "DESIGN.md section 4, " + pid},
         "level_note": "NOT decided by this check: " + p.get("not_decided", "") + ". Trusted base: see evidence coverage.trusted_base; assumed contracts: " + "; ".join(p.get("assumptions", []) or ["none beyond the trusted base"]),
-        "technique": TECH.get(pid, "contract-based deductive verification: " + " + ".join(engines) + " on the real code"),
+        "technique": technique(p),
     })
 m = {
     "version": 1,
